@@ -335,3 +335,65 @@ def register(R, tier="quick"):
                                 "yield (fieldname, text, newdoc, vbytes, weight)")],
                note="merging: every posting of a field still in the schema is re-emitted exactly once, in order, with only "
                     "its document number replaced (docmap[d] when the source has deletions, startdoc + d otherwise)")
+
+    # ------------------------------------------------------------------ SegmentWriter: the same numbering on the writer side (deletes)
+    class Segments(Readers):
+        """self.segments of a writer: Segment objects with doc_count_all / is_deleted / delete_document"""
+        def getitem(self, I, idx, node=None):
+            idx = to_z3(idx)
+            if not I.in_spec and not I.decide(z3.And(idx >= -self.n, idx < self.n), "index-in-bounds"):
+                I.raise_builtin("IndexError", node)
+            return SubReader(z3.If(idx < 0, idx + self.n, idx))
+
+    def mk_writer(I):
+        segs = Segments(I)
+        offs = SymList(z3.Array(I.fresh_name("woffs"), IntS, IntS), z3.Int(I.fresh_name("nwoffs")), "list")
+        return Obj(I.repo.klass(W, "SegmentWriter"), {"segments": segs, "_doc_offsets": offs, "is_closed": False})
+
+    def wf_writer(I, env):
+        s = env["self"]
+        total = z3.Int("total_docs")
+        return z3.And(offsets_ok(I, s.fields["_doc_offsets"], s.fields["segments"].n, total), s.fields["segments"].n >= 1,
+                      env["docnum"] < total)
+
+    def w_owner(I, env, seg, docnum):
+        s = env["self"]
+        a = s.fields["_doc_offsets"].arr
+        seg = to_z3(seg)
+        return z3.And(0 <= seg, seg < s.fields["segments"].n, z3.Select(a, seg) <= docnum, docnum < z3.Select(a, seg) + CNT(seg))
+
+    def sdo_inv(I, env):
+        s = env["self"]
+        if "_doc_offsets" not in s.fields:
+            return z3.BoolVal(False)
+        return z3.And(offsets_ok(I, s.fields["_doc_offsets"], env["_i"], to_z3(env["base"])), env["_i"] <= s.fields["segments"].n)
+
+    R.contract(W + ":SegmentWriter._setup_doc_offsets", props=["C07", "C06"],
+               setup=lambda I: {"self": Obj(I.repo.klass(W, "SegmentWriter"), {"segments": Segments(I)})},
+               ensures=[lambda I, env: z3.Exists([z3.Int("tb")], offsets_ok(I, env["self"].fields["_doc_offsets"],
+                                                                           env["self"].fields["segments"].n, z3.Int("tb")))],
+               loops={0: LoopSpec(index="_i", inv=[sdo_inv], modifies=["self._doc_offsets"])},
+               opts={"sym_empty_lists": True},
+               canaries=[Canary("offset-is-end-of-segment", "self._doc_offsets.append(base)", "self._doc_offsets.append(base + s.doc_count_all())")],
+               note="the writer numbers the committed documents like the reader: running sums of doc_count_all")
+    R.contract(W + ":SegmentWriter._document_segment", props=["C07", "C06"],
+               setup=lambda I: {"self": mk_writer(I), "docnum": z3.Int("docnum")},
+               requires=[wf_writer, "0 <= docnum"],
+               ensures=[lambda I, env: w_owner(I, env, env["result"], env["docnum"])], returns="int",
+               canaries=[Canary("bisect-left", "bisect_right(offsets, docnum)", "bisect_left(offsets, docnum)")],
+               note="a delete by document number reaches the segment that owns the number")
+    R.contract(W + ":SegmentWriter._segment_and_docnum", props=["C07", "C06"],
+               setup=lambda I: {"self": mk_writer(I), "docnum": z3.Int("docnum")},
+               requires=[wf_writer, "0 <= docnum"],
+               ensures=[lambda I, env: z3.And(w_owner(I, env, env["result"][0].idx, env["docnum"]),
+                                              to_z3(env["result"][1]) == env["docnum"]
+                                              - z3.Select(env["self"].fields["_doc_offsets"].arr, env["result"][0].idx))],
+               returns=lambda I, env: (SubReader(I.fresh_int("seg")), I.fresh_int("local")),
+               canaries=[Canary("local-not-rebased", "return (segment, docnum - offset)", "return (segment, docnum)")])
+    R.contract(W + ":SegmentWriter.is_deleted", props=["C07", "C06"],
+               setup=lambda I: {"self": mk_writer(I), "docnum": z3.Int("docnum")},
+               requires=[wf_writer, "0 <= docnum"],
+               ensures=[lambda I, env: z3.ForAll([z3.Int("wseg")], z3.Implies(
+                   w_owner(I, env, z3.Int("wseg"), env["docnum"]),
+                   to_z3(env["result"]) == DEL(z3.Int("wseg"), env["docnum"] - z3.Select(env["self"].fields["_doc_offsets"].arr, z3.Int("wseg")))))],
+               returns="bool")
